@@ -140,30 +140,46 @@ Definition castleMoves (wtm : bool) (pos : position) (occupied : N) (sq : square
 Definition epMaskOf (pos : position) : N :=
   if (0 <=? epSquare pos)%Z then bit (Z.to_N (epSquare pos)) else 0.     (* epSquare.isValid() ? 1ULL << epSquare : 0 *)
 
+(** the piece blocks of pseudoLegalMoves (named so that theorems can speak about them) *)
+Definition queenBlock (wtm : bool) (pos : position) (l : moveList) : moveList :=
+  let occupied := occupiedBB pos in
+  forSquares (ptBB pos (myPiece wtm WQUEEN)) (fun l sq =>
+    let m := andn (N.lor (rookAttacks sq occupied) (bishopAttacks sq occupied)) (colorBB pos wtm) in
+    addMovesByMask l sq m) l.
+Definition rookBlock (wtm : bool) (pos : position) (l : moveList) : moveList :=
+  let occupied := occupiedBB pos in
+  forSquares (ptBB pos (myPiece wtm WROOK)) (fun l sq =>
+    let m := andn (rookAttacks sq occupied) (colorBB pos wtm) in
+    addMovesByMask l sq m) l.
+Definition bishopBlock (wtm : bool) (pos : position) (l : moveList) : moveList :=
+  let occupied := occupiedBB pos in
+  forSquares (ptBB pos (myPiece wtm WBISHOP)) (fun l sq =>
+    let m := andn (bishopAttacks sq occupied) (colorBB pos wtm) in
+    addMovesByMask l sq m) l.
+(** king moves without castling *)
+Definition kingBlock (wtm : bool) (pos : position) (l : moveList) : moveList :=
+  let sq := kingSq pos wtm in
+  let m := andn (kingAttacks sq) (colorBB pos wtm) in
+  addMovesByMask l sq m.
+Definition knightBlock (wtm : bool) (pos : position) (l : moveList) : moveList :=
+  forSquares (ptBB pos (myPiece wtm WKNIGHT)) (fun l sq =>
+    let m := andn (knightAttacks sq) (colorBB pos wtm) in
+    addMovesByMask l sq m) l.
+
 Definition pseudoLegalMovesT (wtm : bool) (pos : position) : moveList :=
   let l : moveList := [] in
   let occupied := occupiedBB pos in
   (* Queen moves *)
-  let l := forSquares (ptBB pos (myPiece wtm WQUEEN)) (fun l sq =>
-             let m := andn (N.lor (rookAttacks sq occupied) (bishopAttacks sq occupied)) (colorBB pos wtm) in
-             addMovesByMask l sq m) l in
+  let l := queenBlock wtm pos l in
   (* Rook moves *)
-  let l := forSquares (ptBB pos (myPiece wtm WROOK)) (fun l sq =>
-             let m := andn (rookAttacks sq occupied) (colorBB pos wtm) in
-             addMovesByMask l sq m) l in
+  let l := rookBlock wtm pos l in
   (* Bishop moves *)
-  let l := forSquares (ptBB pos (myPiece wtm WBISHOP)) (fun l sq =>
-             let m := andn (bishopAttacks sq occupied) (colorBB pos wtm) in
-             addMovesByMask l sq m) l in
+  let l := bishopBlock wtm pos l in
   (* King moves *)
-  let sq := kingSq pos wtm in
-  let m := andn (kingAttacks sq) (colorBB pos wtm) in
-  let l := addMovesByMask l sq m in
-  let l := castleMoves wtm pos occupied sq l in
+  let l := kingBlock wtm pos l in
+  let l := castleMoves wtm pos occupied (kingSq pos wtm) l in
   (* Knight moves *)
-  let l := forSquares (ptBB pos (myPiece wtm WKNIGHT)) (fun l sq =>
-             let m := andn (knightAttacks sq) (colorBB pos wtm) in
-             addMovesByMask l sq m) l in
+  let l := knightBlock wtm pos l in
   (* Pawn moves *)
   let pawns := ptBB pos (myPiece wtm WPAWN) in
   let epMask := epMaskOf pos in
